@@ -156,23 +156,21 @@ Proof.
   - cbn [enc]. destruct o; discriminate.
 Qed.
 
-Theorem marshal_no_panic f byval name t v : has_type t v = true ->
-  (byval = true -> t = YIface -> v <> GvIface None) -> marshal f byval name t v <> MPanic.
+Theorem marshal_no_panic f byval name t v : has_type t v = true -> marshal f byval name t v <> MPanic.
 Proof.
-  intros Ht Hnil. unfold marshal. pose proof (np_all t v Ht) as Hnp.
+  intros Ht. unfold marshal. pose proof (np_all t v Ht) as Hnp.
   assert (G : (if match f with File => name_too_long name | Net => false end then MErr
                else match enc t v with TOk tr => MOk (doc f name tr) | TErr => MErr | TPanic => MPanic end) <> MPanic).
   { destruct (match f with File => name_too_long name | Net => false end); [discriminate|].
     destruct (enc t v); congruence. }
-  destruct t; try exact G. destruct v as [| | | | | | | | |o| |]; try exact G. destruct o; [exact G|].
-  destruct byval; [|discriminate]. exfalso. now apply Hnil.
+  destruct t; try exact G. destruct v as [| | | | | | | | |o| |]; try exact G. destruct o; [exact G|discriminate].
 Qed.
 
 (* ---------- carriers: what was decoded is written back byte for byte ---------- *)
 Lemma raw_exact f name t : raw_reencode f name (tag_id t, payload t) = doc f name t.
 Proof. destruct f; reflexivity. Qed.
 
-Lemma dyn_tag_of t : dyn_tag (dyn_of t) = tag_id t.
+Lemma dyn_tag_of t : dyn_tag (dyn2_of t) = tag_id t.
 Proof. destruct t; reflexivity. Qed.
 
 Lemma u32_len x : x < 2 ^ 31 -> u32 (Z.of_N x) = x.
@@ -186,26 +184,25 @@ Proof.
   apply IH. intros y Hy. apply H. now right.
 Qed.
 
-Lemma dyn_enc_exact : forall t, wf t -> dyn_exact t = true -> dyn_enc (dyn_of t) = payload t.
+(* what dynbt holds of ANY well-formed tree is written back as the textbook encoding of that tree *)
+Lemma dyn_enc_exact : forall t, wf t -> dyn_enc (dyn2_of t) = payload t.
 Proof.
-  induction t as [v|v|v|v|b|b|l|s|eid l IH|l IH|l|l] using tag_ind'; intros W X; cbn [dyn_of dyn_enc payload tag_id];
+  induction t as [v|v|v|v|b|b|l|s|eid l IH|l IH|l|l] using tag_ind'; intros W; cbn [dyn2_of dyn_enc payload tag_id];
     try reflexivity.
-  - apply wf_list in W. destruct W as (He & Hne & Hl & Hall). cbn [dyn_exact] in X.
-    apply andb_true_iff in X. destruct X as [X1 X2]. rewrite lenN_map, u32_len by exact Hl.
+  - apply wf_list in W. destruct W as (He & Hne & Hl & Hall). rewrite lenN_map, u32_len by exact Hl.
     f_equal; [|f_equal].
-    + destruct l as [|x l']; [symmetry; now apply N.eqb_eq|]. cbn [map]. rewrite dyn_tag_of.
+    + destruct l as [|x l']; [reflexivity|]. cbn [map]. rewrite dyn_tag_of.
       inversion Hall as [|? ? [Hx _] _]. exact Hx.
-    + rewrite flat_map_concat_map, map_map, <- flat_map_concat_map.
-      rewrite forallb_forall in X2. rewrite Forall_forall in *.
+    + rewrite flat_map_concat_map, map_map, <- flat_map_concat_map. rewrite Forall_forall in *.
       apply flat_map_ext_in. intros x Hx. apply IH; auto. apply (Hall x Hx).
-  - apply wf_compound in W. cbn [dyn_exact] in X. rewrite forallb_forall in X. rewrite Forall_forall in *.
+  - apply wf_compound in W. rewrite Forall_forall in *.
     f_equal. rewrite flat_map_concat_map, map_map, <- flat_map_concat_map.
     apply flat_map_ext_in. intros kv Hkv. cbn [fst snd].
     destruct (W kv Hkv) as [Hk Wv]. apply name_ok_spec in Hk. destruct Hk as [_ Hk].
-    rewrite dyn_tag_of, u16_len by exact Hk. rewrite (IH kv Hkv Wv (X kv Hkv)). reflexivity.
+    rewrite dyn_tag_of, u16_len by exact Hk. rewrite (IH kv Hkv Wv). reflexivity.
 Qed.
 
-Lemma dyn_exact_doc f name t : wf t -> dyn_exact t = true -> dyn_reencode f name (dyn_of t) = doc f name t.
+Lemma dyn_exact_doc f name t : wf t -> dyn_reencode f name (dyn2_of t) = doc f name t.
 Proof.
-  intros W X. unfold dyn_reencode. rewrite dyn_tag_of, dyn_enc_exact by auto. destruct f; reflexivity.
+  intros W. unfold dyn_reencode. rewrite dyn_tag_of, dyn_enc_exact by auto. destruct f; reflexivity.
 Qed.
